@@ -457,6 +457,24 @@ func runInterp(c *engine.Ctx, focus string) {
 		c.Fingerprint(false, "collision")
 		return
 	}
+	if ex.err && err != nil {
+		// post-fault recovery: after a call that failed half-way, an unrelated small pipeline (maps of every
+		// Go type the library uses) interpolates to exactly itself plus its expansions - nothing of the failed
+		// call's data may turn up in it
+		probeSrc := `{"env":{"P":"q"},"agents":{"queue":"$P"},"steps":[{"command":"run $P","env":{"K":"v-$P"},"plugins":[{"probe#v1.0.0":{"opt":"x-$P","nested":{"a":"b"}}}],"matrix":{"setup":{"os":["l-$P"]}},"x-extra":{"m":{"n":"$P"}}},{"trigger":"t-$P","build":{"env":{"E":"$P"}}}]}`
+		var pp *pipeline.Pipeline
+		c.Guard(focus+".panic", "Parse probe", func() { pp, _ = pipeline.Parse(strings.NewReader(probeSrc)) })
+		if pp != nil {
+			var perr error
+			c.Guard(focus+".panic", "Interpolate probe after a failed call", func() { perr = pp.Interpolate(newEnvNode(false, nil), false) })
+			pj, _ := json.Marshal(pp)
+			want := `{"agents":{"queue":"q"},"env":{"P":"q"},"steps":[{"command":"run q","env":{"K":"v-q"},"matrix":{"setup":{"os":["l-q"]}},"plugins":[{"github.com/buildkite-plugins/probe-buildkite-plugin#v1.0.0":{"nested":{"a":"b"},"opt":"x-q"}}],"x-extra":{"m":{"n":"q"}}},{"build":{"env":{"E":"q"}},"trigger":"t-q"}]}`
+			if perr != nil || string(pj) != want {
+				c.Fail(focus+".residue-after-failure", "probe pipeline after a failed Interpolate", "after a failed Interpolate, an unrelated pipeline interpolated (err=%v) to\n%s\nwant\n%s\nfailed document (%s):\n%s", perr, pj, want, format, truncate(string(src), 1000))
+			}
+			c.Probe("post_failure_probe_pipelines")
+		}
+	}
 	if ex.err {
 		c.Probe("expected_error_runs")
 		if err == nil {
